@@ -120,10 +120,35 @@ FUNCS = {"sigmoid": (lambda a: 1 / (1 + math.exp(-a)), lambda a: math.exp(-a) / 
          "absv": (abs, lambda a: (a > 0) - (a < 0)), "sqrt": (math.sqrt, lambda a: 0.5 / math.sqrt(a))}
 
 
+def gen_alg_chain(rng):
+    """a dependency that passes through several edges: the state of a source node enters the algebraic variable of node 1, which enters the algebraic
+    variable of node 2, ..., which drives a state equation (one chain-rule factor per edge in the Jacobian entry)"""
+    k = rng.randint(2, 3)
+    c1, c2, c3 = (F(rng.choice([1, 2, 3, -2]), rng.choice([1, 2])) for _ in range(3))
+    op0 = {"name": "aop", "eqs": [{"lhs": "mm", "de": False, "rhs": M.add(M.mul(M.num(c1), M.var("tau")), M.mul(M.num(c2), M.var("m_in2")))},
+                                  {"lhs": "xx", "de": True, "rhs": M.add(M.mul(M.num(F(-7, 2)), M.var("m_in2")), M.var("xx"))}],
+           "vars": {"xx": {"decl": "output", "value": "1"}, "mm": {"decl": "var", "value": "0"}, "m_in2": {"decl": "input", "value": "0"}, "tau": {"decl": "const", "value": "1"}}}
+    op1 = {"name": "sop", "eqs": [{"lhs": "v", "de": True, "rhs": M.sub(M.mul(M.num(c3), M.var("m_in")), M.mul(M.num(3), M.var("kk")))}],
+           "vars": {"v": {"decl": "output", "value": "1/2"}, "m_in": {"decl": "input", "value": "0"}, "kk": {"decl": "const", "value": "2"}}}
+    nts = {"S": {"name": "snode", "ops": ["P"]}, "A": {"name": "anode", "ops": ["P", "Q"]}}
+    nodes = {"src": "S"}
+    edges = []
+    prev = "src/sop/v"
+    for i in range(k):
+        nodes[f"n{i}"] = "A"
+        edges.append({"src": prev, "tgt": f"n{i}/aop/m_in2", "w": str(F(rng.choice([1, 2, -1, 3]), rng.choice([1, 2])))})
+        prev = f"n{i}/aop/mm"
+    edges.append({"src": prev, "tgt": f"n{k - 1}/sop/m_in", "w": str(F(rng.choice([1, 2, -3]), 1))})
+    return {"ops": {"P": op1, "Q": op0}, "node_templates": nts, "circuit": {"name": "net", "nodes": nodes, "edges": edges}}
+
+
 def gen_case(rng, tier, floaty=False):
     for _ in range(80):
-        mdl = G.gen_model(rng, max_nodes=3, min_nodes=1, depth=rng.choice([0, 0, 1]), hostile=rng.random() < 0.3,
-                          funcs=(["sigmoid", "tanh", "exp", "sin", "cos", "absv"] if floaty else None))
+        if not floaty and rng.random() < 0.12:
+            mdl = gen_alg_chain(rng)
+        else:
+            mdl = G.gen_model(rng, max_nodes=3, min_nodes=1, depth=rng.choice([0, 0, 1]), hostile=rng.random() < 0.3,
+                              funcs=(["sigmoid", "tanh", "exp", "sin", "cos", "absv"] if floaty else None))
         flat = M.flatten(mdl)
         sp = M.state_paths(flat)
         if len(set(sp)) != len(sp) or len(sp) > 8:
